@@ -698,6 +698,19 @@ func runAPI(rec *Rec, v variant, form string) *obs {
 		o.excIsA = func(string) bool { return false }
 		return o
 	}
+	// a list operand of a mutating operation comes in three storage histories, chosen by the shape of the case: exact
+	// room, one spare slot (grown and shortened again), room for twice its items (see render for the source route)
+	if l, ok := x.(*py.List); ok && (rec.Op == "SetSlice" || rec.Op == "DelSlice" || rec.Op == "SetItem" || rec.Op == "DelItem" || rec.Op == "Concat" || rec.Op == "Repeat") {
+		n := len(l.Items)
+		switch (n + len(rec.Y) + len(rec.Post)) % 3 {
+		case 1:
+			l.Items = append(l.Items, py.Int(0))[:n]
+		case 2:
+			room := make([]py.Object, n, 2*n+4)
+			copy(room, l.Items)
+			l.Items = room
+		}
+	}
 	var y py.Object
 	if rec.Yt == "self" {
 		y = x
@@ -857,6 +870,19 @@ func renderDerive(idx int, rec *Rec) string {
 	var b strings.Builder
 	w := func(f string, a ...interface{}) { fmt.Fprintf(&b, f, a...) }
 	w("def c%d():\n    x = %s\n", idx, lit(rec.T, rec.X, rec.R))
+	// A list that was shortened or grown keeps spare room behind its items, one that comes from a display does not; the
+	// sequence model knows no such thing, so every mutating list case is run on a list of each history (by case number):
+	// fresh from the display / grown by append and shortened again / built longer and cut back.  (Found missing by an
+	// independently seeded change: a slice assignment that saved the tail only when the new items end inside len, not
+	// cap - wrong only on a list with spare room.)
+	if rec.T == "list" && (rec.Op == "SetSlice" || rec.Op == "DelSlice" || rec.Op == "SetItem" || rec.Op == "DelItem" || rec.Op == "Concat" || rec.Op == "Repeat") {
+		switch idx % 3 {
+		case 1:
+			w("    x.append(0)\n    del x[len(x) - 1]\n")
+		case 2:
+			w("    x = x + [0, 0, 0]\n    del x[len(x) - 3:]\n")
+		}
+	}
 	if rec.Then == "concat" || rec.Then == "iadd" {
 		w("    e1 = %s\n    e2 = %s\n", lit(rec.Dt, rec.E1, nil), lit(rec.Dt, rec.E2, nil))
 	}
